@@ -355,6 +355,9 @@ func runC05(c *engine.Ctx) {
 			mv.nested = dd
 			return mv
 		}
+		if p.Draw(12, "val:empty?") == 11 {
+			return mval{s: ""}
+		}
 		return mval{s: fmt.Sprintf("v%d", valCounter)}
 	}
 
@@ -449,6 +452,62 @@ func runC05(c *engine.Ctx) {
 					c.Fail("C05.equal.fresh", "after "+class(lastOp), "Equal(%s,fresh)=%v Equal(fresh,%s)=%v but the model says they hold the same pairs %s\nhistory: %s", st.name, r1, st.name, r2, pairsString(st.model.pairs), strings.Join(opTrace, "; "))
 				}
 			}
+		}
+		// near misses: a map that differs from st.m in exactly one respect is not equal to it, whichever way round
+		for _, st := range []*c05store{A, B} {
+			if st.m == nil || len(st.model.pairs) == 0 || c.Sched.Draw(4, "equal:near-miss?") != 3 {
+				continue
+			}
+			ps := st.model.pairs
+			i := c.Sched.Draw(len(ps), "equal:near-miss-at")
+			near := ordered.NewMap[string, any](0)
+			how := ""
+			switch kind := c.Sched.Draw(4, "equal:near-miss-kind"); {
+			case kind == 0 && len(ps) > 1:
+				how = "one key missing"
+				for j, q := range ps {
+					if j != i {
+						near.Set(q.k, q.v.toAny())
+					}
+				}
+			case kind == 1 && len(ps) > 1:
+				how = "two neighbours swapped"
+				order := make([]int, len(ps))
+				for j := range order {
+					order[j] = j
+				}
+				o := (i + 1) % len(ps)
+				order[i], order[o] = order[o], order[i]
+				for _, j := range order {
+					near.Set(ps[j].k, ps[j].v.toAny())
+				}
+			default:
+				// one value replaced by a value of another type that prints alike (or by another string)
+				var alt any
+				switch {
+				case ps[i].v.isMap:
+					alt, how = pairsString(ps[i].v.nested), "a nested map replaced by a string"
+				case ps[i].v.s == "":
+					alt = []any{nil, false, 0, []any{}, ordered.NewMap[string, any](0), map[string]any{}}[c.Sched.Draw(6, "equal:near-miss-empty")]
+					how = fmt.Sprintf("an empty string replaced by %T", alt)
+				default:
+					alt, how = []any{ps[i].v.s + " ", []any{ps[i].v.s}, nil}[c.Sched.Draw(3, "equal:near-miss-alt")], "a string replaced by another value"
+				}
+				for j, q := range ps {
+					if j == i {
+						near.Set(q.k, alt)
+					} else {
+						near.Set(q.k, q.v.toAny())
+					}
+				}
+			}
+			var r1, r2 bool
+			c.Guard("C05.equal.panic", "Equal(m,near miss) after "+class(lastOp), func() { r1 = ordered.EqualSA(st.m, near) })
+			c.Guard("C05.equal.panic", "Equal(near miss,m) after "+class(lastOp), func() { r2 = ordered.EqualSA(near, st.m) })
+			if r1 || r2 {
+				c.Fail("C05.equal.value", "near miss: "+how, "Equal(%s,near)=%v Equal(near,%s)=%v although near differs from it (%s at pair %d); %s holds %s\nhistory: %s", st.name, r1, st.name, r2, how, i, st.name, pairsString(ps), strings.Join(opTrace, "; "))
+			}
+			c.Probe("equal_near_miss_pairs")
 		}
 		// A vs B, both argument orders
 		want := pairsEqual(A.model.pairs, B.model.pairs) && A.model.isNil == B.model.isNil
